@@ -49,6 +49,9 @@ func genHostileDoc(r *Rand, tier string) Doc {
 			ns = append(ns, 1000000)
 		}
 		d := deepDoc(r.Intn(4), ns[r.Intn(len(ns))], []string{"1", "[]", "{}", `"x"`, ""}[r.Intn(5)])
+		if r.Chance(1, 2) {
+			d = deepDocAny(r, ns[r.Intn(len(ns))], []string{"1", "[]", "{}", `"x"`, ""}[r.Intn(5)], 0)
+		}
 		d.Class = "toodeep"
 		return d
 	case 1: // openers only
